@@ -26,7 +26,6 @@ Example ex_resolve_equivariant :
   rmap_e ex_pi (map_ids ex_pi) (resolve_rec ex_reg ex_set 9 2 true [mk_tpi 0 "T" 0] None).
 Proof. vm_compute. repeat split; reflexivity. Qed.
 
-Definition ex_flat : flat_registry := mk_flat (dr_default (s_dreg ex_set)) [].
 
 (** the IR of the generic enum (entry 4) and its tokens *)
 Example ex_create_type_ir_equivariant :
